@@ -51,6 +51,24 @@ Definition wit_loss : list tid :=
 Definition wit_crash : list tid :=
   [R; R; R; R; R; R; R; W; W; W; W; R; R; R; R; R; R; R; R; R; W; W; W; R; R; R; R; R; W].
 
+Fixpoint ids_eqb (a b : list (Z * Z)) : bool :=
+  match a, b with
+  | [], [] => true
+  | (x1, y1) :: r, (x2, y2) :: t => (x1 =? x2) && (y1 =? y2) && ids_eqb r t
+  | _, _ => false
+  end.
+Lemma ids_eqb_eq a : forall b, ids_eqb a b = true -> a = b.
+Proof.
+  induction a as [|(x1, y1) r IH]; intros [|(x2, y2) t] H; simpl in H; try discriminate; [reflexivity|].
+  apply andb_true_iff in H. destruct H as (H & H3). apply andb_true_iff in H. destruct H as (H1 & H2).
+  apply Z.eqb_eq in H1. apply Z.eqb_eq in H2. subst. rewrite (IH t H3). reflexivity.
+Qed.
+Definition first_ds_wrote (s : state) (w e : list (Z * Z)) : bool :=
+  match nth_error (s_ds s) 0 with
+  | Some d => ids_eqb (ids (written d)) w && ids_eqb (ids (expected (d_cfg d) (g_arr s))) e
+  | None => false
+  end.
+
 (* a terminated run without any exception, recording stopped, in which a selected message is missing from the files *)
 Theorem C17_refuted : exists cfgs prog sched,
   let s := run cfgs prog sched in
@@ -59,13 +77,15 @@ Theorem C17_refuted : exists cfgs prog sched,
             ids (written d) = [(1, 1); (1, 3)] /\ ids (expected (d_cfg d) (g_arr s)) = [(1, 1); (1, 2); (1, 3)].
 Proof.
   exists wit_cfgs, wit_prog, wit_loss. cbv zeta.
+  assert (G : forall s, first_ds_wrote s [(1, 1); (1, 3)] [(1, 1); (1, 2); (1, 3)] = true ->
+            exists d, nth_error (s_ds s) 0 = Some d /\ written d <> expected (d_cfg d) (g_arr s) /\
+            ids (written d) = [(1, 1); (1, 3)] /\ ids (expected (d_cfg d) (g_arr s)) = [(1, 1); (1, 2); (1, 3)]).
+  { intros s H. unfold first_ds_wrote in H. destruct (nth_error (s_ds s) 0) as [d|]; [|discriminate].
+    apply andb_true_iff in H. destruct H as (H1 & H2). apply ids_eqb_eq in H1. apply ids_eqb_eq in H2.
+    exists d. split; [reflexivity|]. split; [|split; assumption].
+    intros X. rewrite X, H2 in H1. discriminate. }
   split; [vm_compute; reflexivity|]. split; [vm_compute; reflexivity|]. split; [vm_compute; reflexivity|].
-  destruct (nth_error (s_ds (run wit_cfgs wit_prog wit_loss)) 0) as [d|] eqn:E; [|vm_compute in E; discriminate].
-  exists d. split; [reflexivity|].
-  assert (A : ids (written d) = [(1, 1); (1, 3)] /\ ids (expected (d_cfg d) (g_arr (run wit_cfgs wit_prog wit_loss))) = [(1, 1); (1, 2); (1, 3)]).
-  { vm_compute in E. inversion E; subst d. split; vm_compute; reflexivity. }
-  destruct A as (A1 & A2). split; [|split; assumption].
-  intros X. rewrite X, A2 in A1. discriminate.
+  apply G. vm_compute. reflexivity.
 Qed.
 
 (* the same window can also end in a Python exception in the writer thread (write on the file stop() has closed) *)
